@@ -1363,6 +1363,7 @@ func runYAML(c *Ctx) {
 	for i := 0; i < c.N; i++ {
 		vals = append(vals, genValue(rng, g, 0))
 	}
+	yamlInputNumbers(c)
 	seen := map[string]bool{}
 	for _, v := range vals {
 		for _, ind := range [][]string{nil, {"--indent", "3"}, {"--indent", "1"}, {"--indent", "8"}} {
@@ -1388,6 +1389,56 @@ func runYAML(c *Ctx) {
 			}
 		}
 	}
+}
+
+// yamlInputNumbers: every YAML spelling of a number (core schema: signs, leading/trailing dots, exponents without digits
+// after the dot, hex/octal, underscores?, infinities) read with --yaml-input must be WRITTEN as valid JSON in every output mode
+// (a number that reaches the output is a json.Number printed verbatim: a YAML-only spelling would come out as invalid JSON),
+// and must denote the number the spelling denotes.  Implementation-only oracle; case key "yamlnum <text>".
+func yamlInputNumbers(c *Ctx) {
+	spellings := []string{"0", "1", "-1", "+1", "+0", "-0", "1.", "-1.", "+1.", ".5", "-.5", "+.5", "1.e2", "1.E2", "+1.e+2", "1e3", "1E3", "+1e3", "1.5e-3",
+		"0x10", "0o7", "00", "007", "1_000", "12345678901234567890123", "+12345678901234567890123", "-12345678901234567890123", "1.0000000000000000001",
+		"+1.0000000000000000001", ".1e1", "1.e0", "0.", "+.0", "-.0e0", "1e+400", "+1e+400", "-1e-400", ".inf", "-.inf", "+.inf", ".nan"}
+	wrap := []string{"%s", "[%s]", "{\"a\": %s}", "[%s, %s]", "- %s\n- x"}
+	modes := [][]string{{"-c"}, {}, {"--tab"}, {"--indent", "1"}, {"-c", "-C"}, {"-r"}, {"-j"}}
+	for _, sp := range spellings {
+		for wi, w := range wrap {
+			text := strings.ReplaceAll(w, "%s", sp) + "\n"
+			for mi, m := range modes {
+				if (wi+mi)%2 == 1 && wi > 0 {
+					continue
+				}
+				var out, errb bytes.Buffer
+				rc := cli.VerifC12Run(append(append([]string{"--yaml-input"}, m...), "."), strings.NewReader(text), &out, &errb)
+				c.Count("yamlnum")
+				c.Nlines++
+				if rc != 0 {
+					continue // a text the YAML reader rejects (or a string, for spellings YAML does not read as numbers) is not this oracle's business
+				}
+				plain := stripSGR(out.Bytes())
+				if !json.Valid(bytes.TrimSpace(plain)) {
+					c.Violation("yamlnum %s :: gojq --yaml-input %s . <<< %q writes %q, which is not valid JSON", sp, strings.Join(m, " "), text, out.String())
+					break
+				}
+			}
+		}
+	}
+}
+
+func stripSGR(b []byte) []byte {
+	var o []byte
+	for i := 0; i < len(b); i++ {
+		if b[i] == 0x1b && i+1 < len(b) && b[i+1] == '[' {
+			j := i + 2
+			for j < len(b) && b[j] != 'm' {
+				j++
+			}
+			i = j
+			continue
+		}
+		o = append(o, b[i])
+	}
+	return o
 }
 
 // sameJSON: equal values (numbers compared as float64 and, when integral, as text)
